@@ -15,7 +15,7 @@ EXPLANATION = (
     "created only under `window full` and `splitter set contains the k-mer`; (S4) a contig shorter than k and "
     "the no-segment case return exactly one segment holding the whole contig with both k-mers missing, and the "
     "final segment is contig[start..]; (S5) = C20-K3 (window restart on non-ACGT); (S6) both sibling bodies "
-    "satisfy the same clauses; (S7) the scan position is the absolute index into the contig (enumerate directly over the contig).  That concatenation reproduces the contig is arithmetic and is not decided.")
+    "satisfy the same clauses; (S8) the k-mer window the segmenter slides is exact for every k in 1..=32 (C20-K5/K1 shared); (S7) the scan position is the absolute index into the contig (enumerate directly over the contig).  That concatenation reproduces the contig is arithmetic and is not decided.")
 UNDECIDED = "that dropping k bases and concatenating reproduces the contig (position arithmetic over all inputs); segment length bounds"
 
 MISSING = 18446744073709551615
@@ -175,6 +175,10 @@ def run(F, rep):
     for o in sub.obligations:
         if o["rule"] == "C20-K3" and "segment::" in o["key"]:
             rep.ob("C10-S5", o["instance"], o["ok"], detail=o["detail"], site=o["site"], key=o["key"].replace("C20-K3", "C10-S5"))
+        # S8: the boundary k-mer the segmenter tests and records is the value of the window it slid over the contig: the
+        # window arithmetic (C20-K5, every k in 1..=32) and canonical = min (C20-K1) are part of "the shared k bases are a splitter"
+        if o["rule"] in ("C20-K5", "C20-K1"):
+            rep.ob("C10-S8", o["instance"], o["ok"], detail=o["detail"], site=o["site"], how=o["how"], key=o["key"].replace(o["rule"], "C10-S8/" + o["rule"][4:]))
 
 
 def _tuple_field_values(f, ex, e):
